@@ -489,20 +489,19 @@ def step2 (f : Nat → Nat → Res) (x st p : Nat) (acc : Sh) : Res :=
      | r => r)
   | r => r
 
+def Res.bind (r : Res) (k : Sh → Nat → Res) : Res :=
+  match r with
+  | .ok a p => k a p
+  | r => r
+
 theorem seqLoop_cons1 (f : Nat → Nat → Res) (y : Nat) (ys : List Nat) (p : Nat) (acc : Sh) :
-    seqLoop f (y :: ys) p acc =
-      match step1 f y p acc with
-      | .ok a p1 => seqLoop f ys p1 a
-      | r => r := by
-  simp only [seqLoop, step1]
+    seqLoop f (y :: ys) p acc = (step1 f y p acc).bind fun a p1 => seqLoop f ys p1 a := by
+  simp only [seqLoop, step1, Res.bind]
   cases f y p <;> rfl
 
 theorem seqLoop_cons2 (f : Nat → Nat → Res) (x st : Nat) (xs : List Nat) (p : Nat) (acc : Sh) :
-    seqLoop f (x :: st :: xs) p acc =
-      match step2 f x st p acc with
-      | .ok a p2 => seqLoop f xs p2 a
-      | r => r := by
-  simp only [seqLoop, step2]
+    seqLoop f (x :: st :: xs) p acc = (step2 f x st p acc).bind fun a p2 => seqLoop f xs p2 a := by
+  simp only [seqLoop, step2, Res.bind]
   cases f x p with
   | ok v p1 => simp only; cases f st p1 <;> rfl
   | fail => rfl
@@ -798,5 +797,353 @@ theorem sepB_step {s₁ s₂ : Side} {H : Hyps} {L : Lex} (hs₁ : s₁.Ok H L) 
         rw [hz] at hm1
         exact ⟨m1, fun m hm => by simp [step1, step2, hm1 m hm, hpp]⟩
       | fuel => rw [hz] at hrl; simp at hrl
+
+/-! ### the simulation invariant -/
+
+/-- all pairs of the candidate relation transfer results computed with fuel `≤ N` -/
+def P (s₁ s₂ : Side) (L : Lex) (R : Rel) (N : Nat) : Prop :=
+  ∀ a b, a < s₁.g.size → b ∈ R a → Tr s₁ s₂ L N a b
+
+theorem inR_tr {s₁ s₂ : Side} {H : Hyps} {L : Lex} (hs₁ : s₁.Ok H L) (hs₂ : s₂.Ok H L) {d : Nat} {R : Rel}
+    {N : Nat} (hP : P s₁ s₂ L R N) {x y : Nat} (h : inR s₁ s₂ d R x y = true) : Tr s₁ s₂ L N x y := by
+  simp only [inR, Bool.and_eq_true, decide_eq_true_eq, List.contains_iff_mem] at h
+  intro k hk c p hne
+  have hpd := peel_down hs₁ d k x c p hne
+  obtain ⟨m₀, hm₀⟩ := hP _ _ h.1 h.2 k hk c p (by rw [hpd]; exact hne)
+  rw [hpd] at hm₀
+  exact peel_ev hs₂ (hm₀ m₀ (Nat.le_refl _)) hne
+
+/-- combine the head step and the tail of a sequence loop on the right-hand side -/
+theorem seq_combine {g₂ : Graph} {L : Lex} {c : Bool} {step : Nat → Res} {target : Res}
+    {ys : List Nat} {tailTarget : Sh → Nat → Res}
+    (hstep : ∃ m₀, ∀ m, m₀ ≤ m → step m = target)
+    (htail : ∀ a p1, target = .ok a p1 →
+      ∃ m₀, ∀ m, m₀ ≤ m → seqLoop (fun e q => parse g₂ L m e c q) ys p1 a = tailTarget a p1) :
+    ∃ m₀, ∀ m, m₀ ≤ m →
+      ((step m).bind fun a p1 => seqLoop (fun e q => parse g₂ L m e c q) ys p1 a) =
+      target.bind tailTarget := by
+  obtain ⟨m1, hm1⟩ := hstep
+  cases target with
+  | ok a p1 =>
+    obtain ⟨m2, hm2⟩ := htail a p1 rfl
+    exact ⟨max m1 m2, fun m hm => by rw [hm1 m (by omega)]; exact hm2 m (by omega)⟩
+  | fail => exact ⟨m1, fun m hm => by rw [hm1 m hm]; rfl⟩
+  | fuel => exact ⟨m1, fun m hm => by rw [hm1 m hm]; rfl⟩
+  | bad => exact ⟨m1, fun m hm => by rw [hm1 m hm]; rfl⟩
+
+theorem sepA_unfold {s₁ s₂ : Side} {d : Nat} {R : Rel} {x st y : Nat} (h : sepA s₁ s₂ d R x st y = true) :
+    ∃ s x' z t, starSepBody s₁.g st = some (s, x') ∧ plusSep s₂.g (peel s₂ d y) = some (z, t) ∧
+      onlyT s₁.sh x = true ∧ onlyT s₁.sh x' = true ∧ onlyT s₁.sh s = true ∧
+      inR s₁ s₂ d R x z = true ∧ inR s₁ s₂ d R x' z = true ∧ inR s₁ s₂ d R s t = true := by
+  unfold sepA at h
+  cases h1 : starSepBody s₁.g st with
+  | none => simp [h1] at h
+  | some sx =>
+    cases h2 : plusSep s₂.g (peel s₂ d y) with
+    | none => simp [h1, h2] at h
+    | some zt =>
+      obtain ⟨s, x'⟩ := sx
+      obtain ⟨z, t⟩ := zt
+      simp only [h1, h2, Bool.and_eq_true] at h
+      exact ⟨s, x', z, t, rfl, rfl, h.1.1.1.1.1, h.1.1.1.1.2, h.1.1.1.2, h.1.1.2, h.1.2, h.2⟩
+
+theorem sepB_unfold {s₁ s₂ : Side} {d : Nat} {R : Rel} {x y st : Nat} (h : sepB s₁ s₂ d R x y st = true) :
+    ∃ z t s y', plusSep s₁.g (peel s₁ d x) = some (z, t) ∧ starSepBody s₂.g st = some (s, y') ∧
+      onlyT s₁.sh z = true ∧ onlyT s₁.sh t = true ∧
+      inR s₁ s₂ d R z y = true ∧ inR s₁ s₂ d R z y' = true ∧ inR s₁ s₂ d R t s = true := by
+  unfold sepB at h
+  cases h1 : plusSep s₁.g (peel s₁ d x) with
+  | none => simp [h1] at h
+  | some zt =>
+    cases h2 : starSepBody s₂.g st with
+    | none => simp [h1, h2] at h
+    | some sy =>
+      obtain ⟨z, t⟩ := zt
+      obtain ⟨s, y'⟩ := sy
+      simp only [h1, h2, Bool.and_eq_true] at h
+      exact ⟨z, t, s, y', rfl, rfl, h.1.1.1.1, h.1.1.1.2, h.1.1.2, h.1.2, h.2⟩
+
+theorem align_sound {s₁ s₂ : Side} {H : Hyps} {L : Lex} (hs₁ : s₁.Ok H L) (hs₂ : s₂.Ok H L) {d : Nat}
+    {R : Rel} {N : Nat} (hP : P s₁ s₂ L R N) (c : Bool) :
+    ∀ k xs ys, align s₁ s₂ d R k xs ys = true → ∀ p acc,
+      seqLoop (fun e q => parse s₁.g L N e c q) xs p acc ≠ .fuel →
+      ∃ m₀, ∀ m, m₀ ≤ m →
+        seqLoop (fun e q => parse s₂.g L m e c q) ys p acc =
+          seqLoop (fun e q => parse s₁.g L N e c q) xs p acc := by
+  intro k
+  induction k with
+  | zero => intro xs ys h; simp [align] at h
+  | succ k ih =>
+    intro xs ys h p acc hne
+    cases xs with
+    | nil =>
+      cases ys with
+      | nil => exact ⟨0, fun m _ => rfl⟩
+      | cons _ _ => simp [align] at h
+    | cons x xs =>
+      cases ys with
+      | nil => simp [align] at h
+      | cons y ys =>
+        simp only [align, Bool.or_eq_true] at h
+        rcases h with (((h | h) | h) | h) | h
+        · -- element-wise
+          simp only [Bool.and_eq_true] at h
+          have tr := inR_tr hs₁ hs₂ hP h.1
+          rw [seqLoop_cons1] at hne ⊢
+          have hx : parse s₁.g L N x c p ≠ .fuel := by
+            intro hx; simp only [step1, hx] at hne; exact hne rfl
+          obtain ⟨m1, hm1⟩ := tr N (Nat.le_refl _) c p hx
+          have hstep : ∃ m₀, ∀ m, m₀ ≤ m → step1 (fun e q => parse s₂.g L m e c q) y p acc =
+              step1 (fun e q => parse s₁.g L N e c q) x p acc :=
+            ⟨m1, fun m hm => by simp only [step1, hm1 m hm]⟩
+          have := seq_combine (g₂ := s₂.g) (L := L) (c := c) (ys := ys)
+            (tailTarget := fun a p1 => seqLoop (fun e q => parse s₁.g L N e c q) xs p1 a) hstep
+            (fun a p1 htg => ih xs ys h.2 p1 a (by rw [htg] at hne; exact hne))
+          obtain ⟨m₀, hm₀⟩ := this
+          exact ⟨m₀, fun m hm => by rw [seqLoop_cons1]; exact hm₀ m hm⟩
+        · -- x (s x')* against x+[s]
+          cases xs with
+          | nil => simp at h
+          | cons st xs' =>
+            simp only [Bool.and_eq_true] at h
+            obtain ⟨s, x', z, t, hst, hpl, hx, hX, hS, r1, r2, r3⟩ := sepA_unfold h.1
+            rw [seqLoop_cons2] at hne ⊢
+            have hne2 : step2 (fun e q => parse s₁.g L N e c q) x st p acc ≠ .fuel := by
+              intro hx; rw [hx] at hne; exact hne rfl
+            have hstep := sepA_step hs₁ hs₂ hst hpl hx hX hS (inR_tr hs₁ hs₂ hP r1) (inR_tr hs₁ hs₂ hP r2)
+              (inR_tr hs₁ hs₂ hP r3) c p acc hne2
+            have := seq_combine (g₂ := s₂.g) (L := L) (c := c) (ys := ys)
+              (tailTarget := fun a p1 => seqLoop (fun e q => parse s₁.g L N e c q) xs' p1 a) hstep
+              (fun a p1 htg => ih xs' ys h.2 p1 a (by rw [htg] at hne; exact hne))
+            obtain ⟨m₀, hm₀⟩ := this
+            exact ⟨m₀, fun m hm => by rw [seqLoop_cons1]; exact hm₀ m hm⟩
+        · -- x+[s] against y (s y')*
+          cases ys with
+          | nil => simp at h
+          | cons st ys' =>
+            simp only [Bool.and_eq_true] at h
+            obtain ⟨z, t, s, y', hpl, hst, hZ, hT, r1, r2, r3⟩ := sepB_unfold h.1
+            rw [seqLoop_cons1] at hne ⊢
+            have hne1 : step1 (fun e q => parse s₁.g L N e c q) x p acc ≠ .fuel := by
+              intro hx; rw [hx] at hne; exact hne rfl
+            have hstep := sepB_step hs₁ hpl hst hZ hT ((inR_tr hs₁ hs₂ hP r1).mono (Nat.sub_le _ _))
+              ((inR_tr hs₁ hs₂ hP r2).mono (Nat.sub_le _ _)) ((inR_tr hs₁ hs₂ hP r3).mono (Nat.sub_le _ _))
+              c p acc hne1
+            have := seq_combine (g₂ := s₂.g) (L := L) (c := c) (ys := ys')
+              (tailTarget := fun a p1 => seqLoop (fun e q => parse s₁.g L N e c q) xs p1 a) hstep
+              (fun a p1 htg => ih xs ys' h.2 p1 a (by rw [htg] at hne; exact hne))
+            obtain ⟨m₀, hm₀⟩ := this
+            exact ⟨m₀, fun m hm => by rw [seqLoop_cons2]; exact hm₀ m hm⟩
+        · -- inline a nested sequence on the left
+          cases hgx : s₁.g.get x with
+          | none => simp [hgx] at h
+          | some nd =>
+            simp only [hgx, Bool.and_eq_true] at h
+            have hin := inline_down hs₁ hgx h.1 N c xs p acc hne
+            rw [← hin] at hne ⊢
+            exact ih _ _ h.2 p acc hne
+        · -- inline a nested sequence on the right
+          cases hgy : s₂.g.get y with
+          | none => simp [hgy] at h
+          | some nd =>
+            simp only [hgy, Bool.and_eq_true] at h
+            obtain ⟨m₀, hm₀⟩ := ih _ _ h.2 p acc hne
+            refine ⟨m₀ + 1, fun m hm => ?_⟩
+            obtain ⟨m', rfl⟩ : ∃ m', m = m' + 1 := ⟨m - 1, by omega⟩
+            have := hm₀ m' (by omega)
+            rw [inline_up hs₂ hgy h.1 m' c ys p acc (by rw [this]; exact hne), this]
+
+/-! ### transfer through the other loops -/
+
+theorem finish_congr {na nb : Node} {r : Res} (hsup : na.suppress = nb.suppress)
+    (hnet : ∀ w q, finish na r = .ok w q → NET w) : finish nb r = finish na r := by
+  cases r with
+  | ok v p =>
+    simp only [finish, ← hsup]
+    by_cases hs : na.suppress = true
+    · simp [hs]
+    · simp only [hs]
+      by_cases hv : v = .H
+      · exfalso
+        subst hv
+        have := hnet _ _ rfl
+        simp only [finish, hs] at this
+        by_cases hr : na.root = true <;> simp [hr, NET] at this
+      · simp [hv]
+  | fail => rfl
+  | fuel => rfl
+  | bad => rfl
+
+/-- element-wise transfer of two lists of nodes -/
+inductive TrList (s₁ s₂ : Side) (L : Lex) (N : Nat) : List Nat → List Nat → Prop
+  | nil : TrList s₁ s₂ L N [] []
+  | cons {x y xs ys} : Tr s₁ s₂ L N x y → TrList s₁ s₂ L N xs ys → TrList s₁ s₂ L N (x :: xs) (y :: ys)
+
+theorem allPairs_tr {s₁ s₂ : Side} {H : Hyps} {L : Lex} (hs₁ : s₁.Ok H L) (hs₂ : s₂.Ok H L) {d : Nat}
+    {R : Rel} {N : Nat} (hP : P s₁ s₂ L R N) :
+    ∀ xs ys, allPairs (inR s₁ s₂ d R) xs ys = true → TrList s₁ s₂ L N xs ys := by
+  intro xs
+  induction xs with
+  | nil => intro ys h; cases ys with
+    | nil => exact .nil
+    | cons _ _ => simp [allPairs] at h
+  | cons x xs ih => intro ys h; cases ys with
+    | nil => simp [allPairs] at h
+    | cons y ys =>
+      simp only [allPairs, Bool.and_eq_true] at h
+      exact .cons (inR_tr hs₁ hs₂ hP h.1) (ih ys h.2)
+
+theorem choiceLoop_tr {s₁ s₂ : Side} {L : Lex} {N k : Nat} (hk : k ≤ N) (c : Bool) {xs ys : List Nat}
+    (h : TrList s₁ s₂ L N xs ys) : ∀ cpos p,
+      choiceLoop (fun e q => parse s₁.g L k e c q) xs cpos p ≠ .fuel →
+      ∃ m₀, ∀ m, m₀ ≤ m →
+        choiceLoop (fun e q => parse s₂.g L m e c q) ys cpos p =
+          choiceLoop (fun e q => parse s₁.g L k e c q) xs cpos p := by
+  induction h with
+  | nil => intro cpos p _; exact ⟨0, fun m _ => rfl⟩
+  | @cons x y xs ys tr _ ih =>
+    intro cpos p hne
+    simp only [choiceLoop] at hne ⊢
+    have hx : parse s₁.g L k x c p ≠ .fuel := by
+      intro hx; rw [hx] at hne; exact hne rfl
+    obtain ⟨m1, hm1⟩ := tr k hk c p hx
+    cases hr : parse s₁.g L k x c p with
+    | ok v p1 =>
+      rw [hr] at hne hm1
+      by_cases hv : v = .N
+      · simp only [hv, if_true] at hne ⊢
+        obtain ⟨m2, hm2⟩ := ih cpos p1 hne
+        exact ⟨max m1 m2, fun m hm => by rw [hm1 m (by omega)]; simp only [hv, if_true]; exact hm2 m (by omega)⟩
+      · exact ⟨m1, fun m hm => by rw [hm1 m hm]; simp [hv]⟩
+    | fail =>
+      rw [hr] at hne hm1
+      obtain ⟨m2, hm2⟩ := ih cpos cpos hne
+      exact ⟨max m1 m2, fun m hm => by rw [hm1 m (by omega)]; exact hm2 m (by omega)⟩
+    | bad => rw [hr] at hm1; exact ⟨m1, fun m hm => by rw [hm1 m hm]⟩
+    | fuel => exact absurd hr hx
+
+/-- transfer of the optional separator parser -/
+def TrSep (s₁ s₂ : Side) (L : Lex) (N : Nat) : Option Nat → Option Nat → Prop
+  | none, none => True
+  | some s, some t => Tr s₁ s₂ L N s t
+  | _, _ => False
+
+theorem sepStep_tr {s₁ s₂ : Side} {L : Lex} {N k : Nat} (hk : k ≤ N) (c : Bool) {sp tp : Option Nat}
+    (h : TrSep s₁ s₂ L N sp tp) (p : Nat) (acc : Sh) (prev : Bool)
+    (hne : sepStep (sp.map fun s q => parse s₁.g L k s c q) p acc prev ≠ .fuel) :
+    ∃ m₀, ∀ m, m₀ ≤ m →
+      sepStep (tp.map fun s q => parse s₂.g L m s c q) p acc prev =
+        sepStep (sp.map fun s q => parse s₁.g L k s c q) p acc prev := by
+  cases sp with
+  | none => cases tp with
+    | none => exact ⟨0, fun m _ => rfl⟩
+    | some _ => exact absurd h (by simp [TrSep])
+  | some s => cases tp with
+    | none => exact absurd h (by simp [TrSep])
+    | some t =>
+      simp only [TrSep] at h
+      simp only [Option.map, sepStep] at hne ⊢
+      by_cases hp : prev = true
+      · simp only [hp, if_true] at hne ⊢
+        have hx : parse s₁.g L k s c p ≠ .fuel := by
+          intro hx; rw [hx] at hne; exact hne rfl
+        obtain ⟨m1, hm1⟩ := h k hk c p hx
+        exact ⟨m1, fun m hm => by rw [hm1 m hm]⟩
+      · exact ⟨0, fun m _ => by simp [hp]⟩
+
+theorem repLoop_tr {s₁ s₂ : Side} {L : Lex} {N k : Nat} (hk : k ≤ N) (c : Bool) {x y : Nat}
+    (trk : Tr s₁ s₂ L N x y) {sp tp : Option Nat} (trs : TrSep s₁ s₂ L N sp tp) :
+    ∀ j p acc first prev,
+      repLoop (fun q => parse s₁.g L k x c q) (sp.map fun s q => parse s₁.g L k s c q) j p acc first prev ≠ .fuel →
+      ∃ m₀, ∀ m, m₀ ≤ m → ∀ j', j ≤ j' →
+        repLoop (fun q => parse s₂.g L m y c q) (tp.map fun s q => parse s₂.g L m s c q) j' p acc first prev =
+          repLoop (fun q => parse s₁.g L k x c q) (sp.map fun s q => parse s₁.g L k s c q) j p acc first prev := by
+  intro j
+  induction j with
+  | zero => intro p acc first prev h; simp [repLoop] at h
+  | succ j ih =>
+    intro p acc first prev hne
+    simp only [repLoop] at hne
+    have hsne : sepStep (sp.map fun s q => parse s₁.g L k s c q) p acc prev ≠ .fuel := by
+      intro h; rw [h] at hne; exact hne rfl
+    obtain ⟨m1, hm1⟩ := sepStep_tr hk c trs p acc prev hsne
+    cases hsp : sepStep (sp.map fun s q => parse s₁.g L k s c q) p acc prev with
+    | ok acc1 p1 =>
+      rw [hsp] at hne hm1
+      simp only at hne
+      have hx : parse s₁.g L k x c p1 ≠ .fuel := by
+        intro hx; rw [hx] at hne; exact hne rfl
+      obtain ⟨m2, hm2⟩ := trk k hk c p1 hx
+      cases hr : parse s₁.g L k x c p1 with
+      | ok v p2 =>
+        rw [hr] at hne hm2
+        simp only at hne
+        by_cases hv : v.truthy = true
+        · simp only [hv, if_true] at hne
+          obtain ⟨m3, hm3⟩ := ih p2 (acc1.add v) false true hne
+          refine ⟨max m1 (max m2 m3), fun m hm j' hj' => ?_⟩
+          obtain ⟨j'', rfl⟩ : ∃ j'', j' = j'' + 1 := ⟨j' - 1, by omega⟩
+          simp only [repLoop, hsp, hr, hm1 m (by omega), hm2 m (by omega), hv, if_true]
+          exact hm3 m (by omega) j'' (by omega)
+        · refine ⟨max m1 m2, fun m hm j' hj' => ?_⟩
+          obtain ⟨j'', rfl⟩ : ∃ j'', j' = j'' + 1 := ⟨j' - 1, by omega⟩
+          simp [repLoop, hsp, hr, hm1 m (by omega), hm2 m (by omega), hv]
+      | fail =>
+        rw [hr] at hm2
+        refine ⟨max m1 m2, fun m hm j' hj' => ?_⟩
+        obtain ⟨j'', rfl⟩ : ∃ j'', j' = j'' + 1 := ⟨j' - 1, by omega⟩
+        simp [repLoop, hsp, hr, hm1 m (by omega), hm2 m (by omega)]
+      | bad =>
+        rw [hr] at hm2
+        refine ⟨max m1 m2, fun m hm j' hj' => ?_⟩
+        obtain ⟨j'', rfl⟩ : ∃ j'', j' = j'' + 1 := ⟨j' - 1, by omega⟩
+        simp [repLoop, hsp, hr, hm1 m (by omega), hm2 m (by omega)]
+      | fuel => exact absurd hr hx
+    | fail =>
+      rw [hsp] at hm1
+      refine ⟨m1, fun m hm j' hj' => ?_⟩
+      obtain ⟨j'', rfl⟩ : ∃ j'', j' = j'' + 1 := ⟨j' - 1, by omega⟩
+      simp [repLoop, hsp, hm1 m (by omega)]
+    | bad =>
+      rw [hsp] at hm1
+      refine ⟨m1, fun m hm j' hj' => ?_⟩
+      obtain ⟨j'', rfl⟩ : ∃ j'', j' = j'' + 1 := ⟨j' - 1, by omega⟩
+      simp [repLoop, hsp, hm1 m (by omega)]
+    | fuel => exact absurd hsp hsne
+
+theorem commentsLoop_tr {s₁ s₂ : Side} {L : Lex} {N k : Nat} (hk : k ≤ N) {c₁ c₂ : Nat}
+    (tr : Tr s₁ s₂ L N c₁ c₂) (skip : Nat → Nat) :
+    ∀ j p, commentsLoop (fun q => parse s₁.g L k c₁ true q) skip j p ≠ .fuel →
+      ∃ m₀, ∀ m, m₀ ≤ m → ∀ j', j ≤ j' →
+        commentsLoop (fun q => parse s₂.g L m c₂ true q) skip j' p =
+          commentsLoop (fun q => parse s₁.g L k c₁ true q) skip j p := by
+  intro j
+  induction j with
+  | zero => intro p h; simp [commentsLoop] at h
+  | succ j ih =>
+    intro p hne
+    simp only [commentsLoop] at hne
+    have hx : parse s₁.g L k c₁ true p ≠ .fuel := by
+      intro hx; rw [hx] at hne; exact hne rfl
+    obtain ⟨m1, hm1⟩ := tr k hk true p hx
+    cases hr : parse s₁.g L k c₁ true p with
+    | ok v p1 =>
+      rw [hr] at hne hm1
+      obtain ⟨m2, hm2⟩ := ih (skip p1) hne
+      refine ⟨max m1 m2, fun m hm j' hj' => ?_⟩
+      obtain ⟨j'', rfl⟩ : ∃ j'', j' = j'' + 1 := ⟨j' - 1, by omega⟩
+      simp only [commentsLoop, hr, hm1 m (by omega)]
+      exact hm2 m (by omega) j'' (by omega)
+    | fail =>
+      rw [hr] at hm1
+      refine ⟨m1, fun m hm j' hj' => ?_⟩
+      obtain ⟨j'', rfl⟩ : ∃ j'', j' = j'' + 1 := ⟨j' - 1, by omega⟩
+      simp [commentsLoop, hr, hm1 m (by omega)]
+    | bad =>
+      rw [hr] at hm1
+      refine ⟨m1, fun m hm j' hj' => ?_⟩
+      obtain ⟨j'', rfl⟩ : ∃ j'', j' = j'' + 1 := ⟨j' - 1, by omega⟩
+      simp [commentsLoop, hr, hm1 m (by omega)]
+    | fuel => exact absurd hr hx
 
 end Rec
